@@ -163,6 +163,39 @@ def add_content_whitespace(rng, r, eol):
             x["s"] = rng.choice([x["s"] + mid + "z" + x["s"], mid + x["s"], x["s"] + mid, "<pre>" + x["s"] + mid + "q</pre>" if x["k"] != "text" else x["s"] + mid + "q"])
 
 
+def check_saved_inline(ctx, r, scratch):
+    """The file written by save_html carries inline content unchanged (content may hold CR, FF, NEL, LS, PS ... itself)."""
+    import locale
+    import os
+
+    if "utf" not in locale.getpreferredencoding(False).lower():
+        ctx.count("save_html_skipped_non_utf8_locale")
+        return True
+    obj = gen.build_root(r)
+    f = os.path.join(scratch, "c05.html")
+    ctx.count("oracle.saved_inline")
+    try:
+        obj.save_html(f)
+        with open(f, encoding="utf-8", newline="") as fh:
+            out = fh.read()
+    finally:
+        if os.path.exists(f):
+            os.remove(f)
+    wit = {"recipe": r, "via": "save_html", "output": out[:1200]}
+    for sub in maximal_inline_subtrees(r, []):
+        e = layout.inline_str(sub)
+        if e and e not in out:
+            ctx.violation("inline-subtree-not-contiguous", "save_html: inline subtree %r is not in the written file unchanged" % e[:80], wit)
+            return False
+    return True
+
+
+def add_exotic_breaks(rng, r):
+    for x in gen.walk(r):
+        if x["k"] in ("text", "html", "obj") and rng.random() < 0.5:
+            x["s"] = x["s"] + rng.choice(["\x0c", "\x85", "\u2028", "\u2029", "\x0b", "\x1c", "\x1e", "a\x0cb"]) + "z" + x["s"]
+
+
 def check_dependency_heads(ctx, heads, via):
     """Inline content carried by dependencies (their head= markup) obeys the same rule where it is emitted: the head
     contents of adjacent dependencies that hold no whitespace-enabled tag are concatenated with nothing between them."""
@@ -201,6 +234,17 @@ def nontrivial(r):
 
 
 def run(ctx):
+    import shutil
+    import tempfile
+
+    ctx.scratch = tempfile.mkdtemp(prefix="hv-c05-")
+    try:
+        _run_outer(ctx)
+    finally:
+        shutil.rmtree(ctx.scratch, ignore_errors=True)
+
+
+def _run_outer(ctx):
     seen = set()
 
     def extract(loc):
@@ -247,6 +291,24 @@ def _run(ctx):
         via = rng.choice(["textdoc", "document", "as_html_tags"])
         ctx.guard(check_dependency_heads, ctx, heads, via, witness={"dependency_heads": heads, "via": via})
         ctx.case(("heads", heads, via), nontrivial=len(heads) >= 2)
+    for _ in range(ctx.budget(60, 6000)):
+        ids = lg.Ids()
+        r = lg.rand_layout_tree(rng, ids, rng.choice([1, 2, 3]), valid=False, kinds_w={"block": 3, "inline": 5, "void_inline": 1, "void_block": 1, "text": 4, "html": 1, "obj": 1, "meta": 0, "dep": 0},
+                                   root_kind=rng.choice(["block", "inline"]))
+        add_exotic_breaks(rng, r)
+        ctx.guard(check_saved_inline, ctx, r, ctx.scratch, witness={"recipe": r, "via": "save_html"})
+        ctx.case(("saved", r), nontrivial=True)
+    # very wide sibling lists (rendering must not depend on how many siblings there are)
+    if ctx.shard == 0:
+        ids = lg.Ids()
+        for n_kids, parent_ws in ((600, True), (1100, False), (513, True)):
+            kids = []
+            for i in range(n_kids):
+                kids.append(lg.leaf("text", ids) if i % 3 else gen.TAG("b", lg.leaf("text", ids), ws=False, via_fn=False))
+            wide = gen.TAG("div" if parent_ws else "span", *kids, ws=parent_ws, via_fn=False)
+            for indent, eol in ((0, "\n"), (2, "\r\n"), (1, "")):
+                check_case(ctx, gen.TAG("section", wide, ws=True, via_fn=False), indent, eol)
+                ctx.count("wide_lists")
     ex = gen.TAG("span", gen.T("t1;"), gen.TAG("div", gen.TAG("b", gen.T("t2;"), ws=False), gen.T("t3;")), gen.T("t4;"), ws=False)
     ctx.sample({"recipe": ex, "output": gen.build(ex).get_html_string()})
 
